@@ -29,7 +29,7 @@ macro_rules! c07 {
 }
 
 pub fn register(l: &mut Vec<Obl>) {
-    let (q, t) = (Tier::Quick, Tier::Thorough);
+    let (q, t, open) = (Tier::Quick, Tier::Thorough, Tier::Open);
     c07!(obl, l, "xyz_to_lab_and_back", q, "XYZ <-> L*a*b*", ["<Lab as FromColorUnclamped<Xyz>>", "<Xyz as FromColorUnclamped<Lab>>"],
         [var("x", 0.0, 0.95047), var("y", 0.0, 1.0), var("z", 0.0, 1.08883)], |v| {
             let lab: Lab<wp::D65, T> = Lab::from_color_unclamped(Xyz::<wp::D65, T>::new(v[0], v[1], v[2]));
@@ -159,7 +159,7 @@ pub fn register(l: &mut Vec<Obl>) {
             let (p, q2) = (LinSrgb::<T>::new(v[0] * T::k(0.01), v[0] * T::k(0.01), v[2] * T::k(0.01)), LinSrgb::<T>::new(v[2] * T::k(0.01), v[2] * T::k(0.01), v[0] * T::k(0.01)));
             [x.delta_e(y), x.improved_delta_e(y), x.hybrid_distance(y), p.relative_contrast(q2)]
         });
-    obl!(l; "c07_xyz_to_cam16", "C07", t,
+    obl!(l; "c07_xyz_to_cam16", "C07", q,
         "XYZ -> CAM16 (default viewing conditions D65, L_A = 40, Y_b = 20, average surround) for every XYZ colour of the documented range whose three CAT16 cone responses are non-negative (all real colours; see the known finding for the rest): every division, square root and power the code executes is defined",
         ["Cam16::from_xyz", "cam16::math::xyz_to_cam16", "cam16::math::DependentParameters::adapt"],
         [var("x", 0.0, 0.95047), var("y", 0.0, 1.0), var("z", 0.0, 1.08883)];
@@ -198,7 +198,7 @@ pub fn register(l: &mut Vec<Obl>) {
             r.goal("scope_ops_7_7", B::k(true));
             r
         });
-    c07!(obl, l, "ciede2000", t, "CIEDE2000 on every pair of Lab colours of the documented box (achromatic pairs included)", ["color_difference::get_ciede2000_difference"],
+    c07!(obl, l, "ciede2000", open, "CIEDE2000 on every pair of Lab colours of the documented box (achromatic pairs included)", ["color_difference::get_ciede2000_difference"],
         [var("l1", 0.0, 100.0), var("a1", -128.0, 127.0), var("b1", -128.0, 127.0), var("l2", 0.0, 100.0), var("a2", -128.0, 127.0), var("b2", -128.0, 127.0)], |v| {
             [Lab::<wp::D65, T>::new(v[0], v[1], v[2]).difference(Lab::<wp::D65, T>::new(v[3], v[4], v[5]))]
         });
